@@ -214,6 +214,20 @@ def run_cases(ctx, with_model=True, stop_first=False):
         first = first or dict(key="nonconvergence-silent", what="no error raised")
     except RuntimeError:
         ctx.count("nonconvergence_raised")
+    # slow convergence (a small but legitimate step size, no drag reduction): the error creeps down by much less than
+    # a per cent per iteration and is nowhere near the tolerance when the iteration budget ends -> must raise, and
+    # every iteration of the budget must have been used
+    with ErrLog() as slog:
+        try:
+            tdgl.solve(dev, runs.options(solve_time=0.05, dt_init=1e-2, include_screening=True, screening_tolerance=1e-3, screening_step_size=2e-4, screening_step_drag=1.0,
+                                         max_iterations_per_step=1500), applied_vector_potential=0.5)
+            last = [s_ for s_ in slog.steps if s_]
+            rp = dict(max_iterations_per_step=1500, screening_step_size=2e-4, screening_step_drag=1.0, iterations=[len(s_) for s_ in last][:4], last_error=(last[0][-1] if last else None))
+            ctx.fail("nonconvergence-silent:slow", f"slowly converging screening (step size 2e-4) was accepted after {rp['iterations']} iterations with error {rp['last_error']} >= tolerance 1e-3; no error was raised", rp)
+            first = first or dict(key="nonconvergence-silent:slow", what="slow convergence accepted", **rp)
+        except RuntimeError:
+            ctx.count("slow_nonconvergence_raised")
+    ctx.case(("nonconvergence-slow",), nontrivial=True)
     if with_model:
         (o,) = V.driver([f"screen {V.bits(1e-12)} 2 | " + zoo.fl([1.0, 0.5, 0.25, 0.1, 0.05])])
         ctx.corr(o.strip() == "failed 3", "screenLoop fails after maxIt+1 iterations", dict(model=o))
